@@ -129,13 +129,14 @@ pub struct Case {
 pub const ALL_GATES: &[&str] = &[
     "cmd.begin",
     "db.bound",
+    "txn.lock.begin",
     "txn.pinned",
     "txn.locked",
     "vm.commit.begin",
     "vm.commitA",
     "vm.append",
     "vm.committed",
-    "cp.pinned",
+    "cp.pass.begin",
     "cp.table",
     "cp.locked",
     "cp.pass.end",
@@ -312,6 +313,13 @@ fn track_locks(st: &mut State, t: usize, name: &str, detail: &str) {
         }
         "txn.locked" | "cp.locked" => {
             st.table_locks.insert(detail.to_string(), t);
+        }
+        "txn.pinned" => {
+            // an update txn holds the table's deletion lock by the time it has pinned
+            let p: Vec<&str> = detail.split(',').collect();
+            if p[0] == "upd" {
+                st.table_locks.insert(p[1].to_string(), t);
+            }
         }
         "cp.table" | "cp.pass.end" => {
             st.table_locks.retain(|_, h| *h != t);
@@ -490,7 +498,17 @@ pub async fn run_sql_text(db: &Database, sql: &str) -> String {
             }
             rows_text(vals, true)
         }
-        Err(e) => err_class(&e.to_string()),
+        Err(e) => {
+            // the Display of the outer error does not include its cause: walk the chain
+            let mut msg = e.to_string();
+            let mut cur: Option<&dyn std::error::Error> = std::error::Error::source(&e);
+            while let Some(c) = cur {
+                msg.push_str(": ");
+                msg.push_str(&c.to_string());
+                cur = c.source();
+            }
+            err_class(&msg)
+        }
     }
 }
 
@@ -719,10 +737,7 @@ fn enabled_threads(st: &State) -> Vec<usize> {
         if let Some((name, detail, _)) = &t.gate {
             let ok = match name.as_str() {
                 "vm.commit.begin" => st.manifest_holder.is_none(),
-                "txn.pinned" => {
-                    let p: Vec<&str> = detail.split(',').collect();
-                    !(p[0] == "upd" && st.table_locks.contains_key(p[1]))
-                }
+                "txn.lock.begin" => !st.table_locks.contains_key(detail.as_str()),
                 _ => true,
             };
             if ok {
